@@ -52,6 +52,10 @@ class KeyEnv(C.CsrEnv):
     def resolve(self, eng, callee, args):
         if re.search(r"KeyPair::from_pkcs8_der_and_sign_algo$", callee):
             return find(self.m.fns, r"::from_pkcs8_der_and_sign_algo$")
+        if re.search(r"KeyPair::from_der_and_sign_algo$", callee):
+            return find(self.m.fns, r"::from_der_and_sign_algo$")
+        if re.match(r"^<(key_pair::)?KeyPair as TryFrom<&PrivateKeyDer<'_>>>::try_from$", callee):
+            return find(self.m.fns, r"^key_pair::<impl.*>::try_from$", r"^&PrivateKeyDer<'_>$")
         return self.orig_resolve(eng, callee, args)
 
     def __call__(self, eng, callee, args, st):
